@@ -328,8 +328,8 @@ def make_units(prop, tier, only=None):
                 units.append(u)
         if prop == 'C01':
             # "very long text": two symbolic characters repeated to 4302 characters (one more than int()'s digit limit)
-            u = {'prop': prop, 'module': modname, 'options': {}, 'L': 2, 'repeat': 2151, 'K': 1, 'prio': 1, 'is_valid_takes_options': True}
-            u.update(dict(max_paths=60, timeout=20, query_timeout_ms=4000) if tier == 'quick' else dict(max_paths=400, timeout=120, query_timeout_ms=20000))
+            u = {'prop': prop, 'module': modname, 'options': {}, 'L': 2, 'repeat': 2151, 'K': 1, 'prio': 3, 'is_valid_takes_options': True}
+            u.update(dict(max_paths=8, timeout=12, query_timeout_ms=3000) if tier == 'quick' else dict(max_paths=400, timeout=120, query_timeout_ms=20000))
             units.append(u)
         import random
         rnd = random.Random(common.seed() * 7919 + len(units))
